@@ -5,8 +5,11 @@ V = os.path.dirname(os.path.dirname(os.path.abspath(__file__)))
 props = [json.loads(l) for l in open(os.path.join(V, "properties.jsonl"))]
 checks = json.load(open(os.path.join(V, "tools", "checks.json")))
 import glob
+enabled = set(checks.get("_enabled", []))
 for f in sorted(glob.glob(os.path.join(V, "tools", "checks.d", "*.json"))):
-  checks.update(json.load(open(f)))
+  for k, v in json.load(open(f)).items():
+    if k in enabled:          # fragments are merged only once integrated
+      checks[k] = v
 repo_commits = checks.get("_hook_commits", [])
 m = {"version": 1,
      "setup_cmd": "cd /verif && /venv/bin/python tools/setup_check.py",
